@@ -23,6 +23,10 @@ RULE = ('registry DAGs of 2-5 registries of either flavour (verifying over '
 GC_EVERY = 20
 
 
+# thorough tier: coverage-guided campaigns on top of the random ones
+ATHERIS = [{'impl': 'py', 'n': 30000, 'name': 'py-atheris'},
+           {'impl': 'c', 'n': 30000, 'name': 'c-atheris'}]
+
 def configs(tier, seed):
     n = 2500 if tier == 'quick' else 30000
     return [{'name': impl + '-chain', 'impl': impl, 'mode': 'hyp', 'n': n}
